@@ -2,7 +2,10 @@ package props
 
 import (
 	"fmt"
+	"math"
+	"regexp"
 	"sort"
+	"strconv"
 	"strings"
 	"time"
 
@@ -222,6 +225,31 @@ func c14Protocol(r *wr.Rendered) *Verdict {
 	return nil
 }
 
+var c14NumRe = regexp.MustCompile(`[0-9]*\.?[0-9]+(?:[eE][+-]?[0-9]+)?`)
+
+// c14Astronomic tells whether the style of the document names a number of magnitude 1e18 or more:
+// its square is beyond what float32, the type of every length in the engine, can hold.
+func c14Astronomic(html string, sheets []string) bool {
+	for _, src := range append([]string{html}, sheets...) {
+		for _, m := range c14NumRe.FindAllString(src, -1) {
+			if f, err := strconv.ParseFloat(m, 64); (err == nil || math.IsInf(f, 0)) && math.Abs(f) >= 1e18 {
+				return true
+			}
+		}
+	}
+	return false
+}
+
+// c14OnlyNonFinite: every recorded problem is a non finite number
+func c14OnlyNonFinite(r *wr.Rendered) bool {
+	for _, p := range r.Rec.Problems {
+		if !strings.HasPrefix(p, "nonfinite:") {
+			return false
+		}
+	}
+	return true
+}
+
 func c14HasID(b bo.Box, id string) bool {
 	if el := b.Box().Element; el != nil {
 		for _, a := range el.Attr {
@@ -242,6 +270,12 @@ func c14Check(ci interface{}) Verdict {
 		}
 		if v := c14Protocol(r); v != nil {
 			v.Labels = []string{"kind:general"}
+			if strings.HasPrefix(v.Sig, "backend:nonfinite:") && c14OnlyNonFinite(r) && c14Astronomic(c.Doc.HTML, c.Doc.UserCSS) {
+				// lengths that float32 arithmetic cannot hold (C14-F01): honoured only while the ledger lists it
+				tv := Verdict{Labels: []string{"kind:general", "astronomic-length"}}
+				tv.Tolerate("backend:nonfinite:astronomic-length", "%s", v.Msg)
+				return tv
+			}
 			return *v
 		}
 		paints := 0
